@@ -802,6 +802,12 @@ private:
   // 1970-01-01T00:00:00Z, so it cannot be used.
   static constexpr std::int64_t NO_EXPIRY_SENTINEL = std::numeric_limits<std::int64_t>::min();
 
+  // Longest record writeLogEntry() can frame (an 'E' entry with the longest key
+  // and value the setters accept): op(1) + keyLen(4) + key + expiry(8) +
+  // valLen(4) + value + crc(4). load() must admit every record up to this length.
+  static constexpr size_t MAX_LOG_RECORD_LENGTH =
+      1 + 4 + MAX_KEY_LENGTH + 8 + 4 + MAX_VALUE_LENGTH + 4;
+
   // Upper bound (~200 years in ms) for the validated TTL wheel range, chosen so
   // steady_clock arithmetic (now + delay, in ns) cannot overflow int64 (KTP-11).
   static constexpr std::int64_t kMaxTtlRangeMs = 6'311'520'000'000LL;
@@ -1413,7 +1419,7 @@ private:
     {
       uint32_t totalLen = 0;
       if (!log.read(reinterpret_cast<char *>(&totalLen), sizeof(totalLen)) || totalLen < 10 ||
-          totalLen > 100 * 1024 * 1024)
+          totalLen > MAX_LOG_RECORD_LENGTH)
       {
         break; // Invalid or corrupted entry
       }
